@@ -57,6 +57,21 @@ FATE_TABLE = {
 }
 
 
+# entries that exist only in some build configurations: key -> set of configs
+ONLY_IN = {
+    ("tantivy::termdict::fst_termdict::term_info_store::TermInfoStore::get", "<tantivy::termdict::fst_termdict::term_info_store::TermInfoBlockMeta as tantivy_common::serialize::BinarySerializable>::deserialize", "panic:expect"): {"default", "nodebug", "zstd", "failpoints"},
+    ("tantivy::termdict::fst_termdict::termdict::TermDictionary::empty", "tantivy::termdict::fst_termdict::termdict::TermDictionary::open", "panic:unwrap"): {"default", "nodebug", "zstd", "failpoints"},
+    ("tantivy_sstable::dictionary::Dictionary::<TSSTable>::empty", "tantivy_sstable::Writer::<W, TValueWriter>::finish", "panic:expect"): {"quickwit"},
+    ("tantivy_sstable::dictionary::Dictionary::<TSSTable>::empty", "tantivy_sstable::dictionary::Dictionary::<TSSTable>::builder", "panic:expect"): {"quickwit"},
+    ("tantivy_sstable::dictionary::Dictionary::<TSSTable>::empty", "tantivy_sstable::dictionary::Dictionary::<TSSTable>::open", "panic:unwrap"): {"quickwit"},
+}
+FATE_TABLE.update({
+    ("tantivy_sstable::dictionary::Dictionary::<TSSTable>::empty", "tantivy_sstable::Writer::<W, TValueWriter>::finish", "panic:expect"): (1, "quickwit build: empty dictionary written into a Vec<u8>, cannot fail"),
+    ("tantivy_sstable::dictionary::Dictionary::<TSSTable>::empty", "tantivy_sstable::dictionary::Dictionary::<TSSTable>::builder", "panic:expect"): (1, "quickwit build: builder over a Vec<u8>"),
+    ("tantivy_sstable::dictionary::Dictionary::<TSSTable>::empty", "tantivy_sstable::dictionary::Dictionary::<TSSTable>::open", "panic:unwrap"): (1, "quickwit build: opens the in-memory empty dictionary it just wrote"),
+})
+
+
 def entries(prog):
     return [b.id for b in prog.bodies.values() if b.kind in ("fn", "assocfn", "closure") and b.id.startswith(ENTRY_PREFIXES)]
 
@@ -108,6 +123,8 @@ def r1(rep, prog):
         else:
             rep.fail(R, key, "the Result of `%s` (storage error) is %s instead of being propagated" % (callee, fate.replace(":", " by ")), site=sites[k][0])
     for k in FATE_TABLE:
+        if k in ONLY_IN and prog.config not in ONLY_IN[k]:
+            continue
         if k not in seen:
             rep.fail(R, "stale table entry %s / %s / %s" % (short(k[0]), short(k[1]), k[2]), "the permitted site no longer exists: the table must be re-confirmed")
     rep.extra["fate_counts"] = dict(fc)
@@ -130,7 +147,8 @@ def r2(rep, prog):
         for names, what in ((prog.names(r"^serde_json::.*to_vec_pretty$"), "serde_json::to_vec_pretty"), (family(prog, D + "sync_directory"), "sync_directory")):
             rule_result_checked(rep, prog, R, sm, names, what)
         rule_precede(rep, prog, R, sm, prog.names(r"^serde_json::.*to_vec_pretty$"), family(prog, D + "atomic_write"), "serialisation of the meta", "atomic_write")
-    rule_precede(rep, prog, R, SU + "SegmentUpdater::save_metas", {sm}, {SU + "SegmentUpdater::store_meta"}, "save_metas (file)", "store_meta (memory)")
+    from .c01 import store_meta_after_publish
+    store_meta_after_publish(rep, prog, R)
     # PreparedCommit::commit waits for the task and returns its result
     for fn in (I + "prepared_commit::PreparedCommit::<'_, D>::commit", I + "prepared_commit::PreparedCommit::<'_, D>::commit_future"):
         b = prog.body(fn)
